@@ -484,3 +484,49 @@ def summary(ctx: Ctx):
           f"wall={time.time() - ctx.t0:.1f}s")
     if ctx.counters:
         print("  branches: " + ", ".join(f"{k}={v}" for k, v in sorted(ctx.counters.items())))
+
+
+# ----------------------------------------------------------------------------- decoy loads
+
+_DECOY_ITP = b"[ moleculetype ]\nDECOY 1\n[ atoms ]\n1 C 1 DEC A1 1\n2 C 1 DEC A2 2\n[ bonds ]\n1 2 1\n"
+_DECOY_GRO = (b"decoy\n    2\n    1DEC     A1    1   0.100   0.200   0.300\n"
+              b"    1DEC     A2    2   0.400   0.500   0.600\n   1.00000   1.00000   1.00000\n")
+
+
+def decoy(path: str, kind: str):
+    """Before a case's file is written to `path`, put a small DIFFERENT valid file there and load it through
+    every library entry point that takes a path.  Each case is then a self-contained two-step history
+    'load path, rewrite path, load path again': a reader that remembers what it saw under a path (memo keyed
+    by file name — seed C15-2) answers the case with the decoy's content, and the replay of that single case
+    reproduces it.  Failures of the decoy loads are ignored (they are not the case under test)."""
+    import warnings
+    with open(path, "wb") as fh:
+        fh.write(_DECOY_ITP if kind == "itp" else _DECOY_GRO)
+    with warnings.catch_warnings():
+        warnings.simplefilter("ignore")
+        if kind == "itp":
+            from gaddlemaps.parsers import ItpFile, read_topology
+            from gaddlemaps.components import MoleculeTop
+            for fn in (read_topology, MoleculeTop, ItpFile):
+                try:
+                    fn(path)
+                except Exception:   # noqa: BLE001
+                    pass
+        else:
+            from gaddlemaps.parsers import GroFile
+            from gaddlemaps.components import SystemGro, System
+            try:
+                g = GroFile(path)
+                g.readlines()
+                g.close()
+            except Exception:   # noqa: BLE001
+                pass
+            for fn in (SystemGro, System):
+                try:
+                    fn(path)
+                except Exception:   # noqa: BLE001
+                    pass
+    try:
+        os.unlink(path)
+    except OSError:
+        pass
